@@ -1,0 +1,32 @@
+//go:build verif
+
+package rp
+
+import (
+	"context"
+	"sync/atomic"
+)
+
+// Schedule points of remoteKeySet for the verification harness (build tag `verif`).
+// The hook receives the context of the running call (it carries the harness's caller identity
+// as a context value) and the name of the point that was reached.
+
+type verifHook func(ctx context.Context, name string)
+
+var verifPointFn atomic.Pointer[verifHook]
+
+// SetVerifPoint installs (or, with nil, removes) the hook called at every schedule point.
+func SetVerifPoint(f func(ctx context.Context, name string)) {
+	if f == nil {
+		verifPointFn.Store(nil)
+		return
+	}
+	h := verifHook(f)
+	verifPointFn.Store(&h)
+}
+
+func verifPoint(ctx context.Context, name string) {
+	if h := verifPointFn.Load(); h != nil {
+		(*h)(ctx, name)
+	}
+}
